@@ -74,9 +74,11 @@ def sobs_lit(st):
     arcs = lit.lst([lit.pair(lit.pair(lit.nat(k[0]), lit.nat(k[1])),
                              lit.tup(name_lit(v[0]), name_lit(v[1]), lit.q(v[2]), lit.q(v[3])))
                     for k, v in st["arcs"]])
-    sp = lit.lst([lit.nat(PORT_CODE[p]) for p in st["sports"]])
-    dp = lit.lst([lit.nat(PORT_CODE[p]) for p in st["dports"]])
-    pm = lit.lst([lit.pair(lit.nat(PORT_CODE[p]), lit.lst([name_lit(x) for x in l])) for p, l in st["pmap"]])
+    # a key that is not a port name (e.g. a dummy vessel filed as a port) gets code 99: it can only disagree with the model
+    code = lambda p: PORT_CODE.get(p, 99)
+    sp = lit.lst([lit.nat(code(p)) for p in st["sports"]])
+    dp = lit.lst([lit.nat(code(p)) for p in st["dports"]])
+    pm = lit.lst([lit.pair(lit.nat(code(p)), lit.lst([name_lit(x) for x in l])) for p, l in st["pmap"]])
     return lit.tup(nodes, arcs, sp, dp, pm)
 
 
@@ -104,6 +106,15 @@ def apply_op(m, op):
     try:
         if op[0] == "nodes":
             r = m.add_nodes(op[1], xq(op[2]), xq(op[3]), xq(op[4]))
+            # the caller collects the returned names in one list (names = add_nodes(..); names += add_nodes(..)): the
+            # returned list is the caller's to edit and must not be the MIRP's own bookkeeping
+            if isinstance(r, list):
+                mine = list(r)
+                if getattr(m, "_vq_names", None) is None:
+                    m._vq_names = r
+                else:
+                    m._vq_names += r
+                r = mine
         elif op[0] == "travel":
             table = {k: xq(v) for k, v in op[1]}
             fs = {k: xq(v) for k, v in op[4]}
